@@ -197,11 +197,13 @@ pub fn session_from(spells: Vec<String>, stride: usize, seed: u64) -> Outcome {
             }
         }
     }
-    // literals outside the core of SPL (not part of the TLC-bound edit count)
+    // literals outside the core of SPL and the comment starter `//` (commenting the rest of the line out); not part of the
+    // TLC-bound edit count
     let bound = o.counters.iter().filter(|(k, _)| k == "edits").map(|(_, v)| *v).sum::<usize>();
     for i in 0..n {
         for a in EXTRA_TOKENS {
             try_edit(&mut o, i, i + 1, &[a], "replace-extra");
+            try_edit(&mut o, i, i, &[a], "insert-extra");
         }
     }
     let all = o.counters.iter().filter(|(k, _)| k == "edits").map(|(_, v)| *v).sum::<usize>();
